@@ -45,7 +45,7 @@ func init() {
 			}
 			return []runner.Phase{
 				{Name: "direct", Variant: "race", Cases: n, Run: c16direct, CaseTimeout: 180 * time.Second,
-					Required: []string{"steps", "step_add", "step_remove", "step_readdress", "step_replace_id", "step_invalid_rows", "step_duplicate_row", "step_down", "step_up", "step_refresh_failure", "step_control_loss", "step_flap", "step_event_for_removed", "step_peer_address_change", "step_join_during_control_outage", "step_filter_rejects_known_node", "sessions_with_host_filter", "consistency_checks"}},
+					Required: []string{"steps", "step_add", "step_remove", "step_readdress", "step_replace_id", "step_invalid_rows", "step_duplicate_row", "step_down", "step_up", "step_refresh_failure", "step_control_loss", "step_flap", "step_event_for_removed", "step_peer_address_change", "step_join_during_control_outage", "step_filter_rejects_known_node", "step_join_announced_by_up_only", "sessions_with_host_filter", "consistency_checks"}},
 				{Name: "realtime", Variant: "race", Cases: rt, Shards: 8, Run: c16realtime, CaseTimeout: 180 * time.Second, Required: []string{"event_bursts", "refresh_overlaps"}},
 			}
 		},
@@ -341,7 +341,11 @@ func c16session(c *runner.Ctx, r *rand.Rand, i int) (*gocql.Session, *c16model, 
 	if r.Intn(3) == 0 {
 		// a host filter whose verdicts change while the session runs (a deny-list the application maintains)
 		m.denied = map[string]bool{}
+		byDC := r.Intn(2) == 0 // the filter also looks at the node's datacenter (every datacenter of this cluster is acceptable)
 		cfg.HostFilter = gocql.HostFilterFunc(func(h *gocql.HostInfo) bool {
+			if byDC && h.DataCenter() != "dc0" && h.DataCenter() != "dc1" {
+				return false
+			}
 			m.mu.Lock()
 			defer m.mu.Unlock()
 			return !m.denied[h.ConnectAddress().String()]
@@ -394,7 +398,7 @@ func c16direct(c *runner.Ctx, i int) {
 	for s := 0; s < nsteps; s++ {
 		nodes := cl.Snapshot()
 		others := nodes[1:]
-		step := r.Intn(18)
+		step := r.Intn(19)
 		desc := ""
 		m.mu.Lock()
 		if step != 5 {
@@ -507,7 +511,7 @@ func c16direct(c *runner.Ctx, i int) {
 			}
 		case step == 6 && len(others) > 0:
 			n := others[r.Intn(len(others))]
-			if m.down[n] {
+			if m.down[n] || m.isDenied(n) { // (status events for a node the filter rejects are none of the session's business)
 				continue
 			}
 			reachable := r.Intn(2) == 0
@@ -556,7 +560,7 @@ func c16direct(c *runner.Ctx, i int) {
 			gocql.VerifHandleNodeEvents(sess, []gocql.VerifNodeEvent{{Change: ch, Host: n.IP, Port: 9042}, {Change: ch, Host: peerAddr(n), Port: 9042}})
 		case step == 12 && len(others) > 0:
 			n := others[r.Intn(len(others))]
-			if m.down[n] {
+			if m.down[n] || m.isDenied(n) { // (status events for a node the filter rejects are none of the session's business)
 				continue
 			}
 			// a flapping node: several status events in one batch; the last one counts
@@ -581,7 +585,7 @@ func c16direct(c *runner.Ctx, i int) {
 			c.Add("step_flap", 1)
 		case step == 13 && len(others) > 0:
 			n := others[r.Intn(len(others))]
-			if m.down[n] {
+			if m.down[n] || m.isDenied(n) { // (status events for a node the filter rejects are none of the session's business)
 				continue
 			}
 			// only the node-to-node address changes (separate client and inter-node networks): same host id,
@@ -627,6 +631,25 @@ func c16direct(c *runner.Ctx, i int) {
 			c.Add("step_join_during_control_outage", 1)
 			changed = true
 			for w := 0; w < 500; w++ {
+				byID, _, _ := gocql.VerifRingSnapshot(sess)
+				if _, ok := byID[uuidString(n.HostID)]; ok {
+					break
+				}
+				time.Sleep(10 * time.Millisecond)
+			}
+		case step == 17 && len(nodes) < 7:
+			// a node becomes known only through the UP event that follows its start (the NEW_NODE event was missed or
+			// came while its row was still incomplete): the driver learns it with the ring refresh that UP asks for
+			ip := net.IPv4(10, 0, 9, byte(m.nextIP)).To4()
+			m.nextIP++
+			n := cl.AddNode(ip, fmt.Sprintf("dc%d", r.Intn(2)), fmt.Sprintf("r%d", r.Intn(3)), []string{fmt.Sprint(int64(m.nextIP) * 1000037)})
+			n.HostID = c16id(m.nextID)
+			m.nextID++
+			desc = "start of " + ip.String() + " announced by an UP event only"
+			c.Add("step_join_announced_by_up_only", 1)
+			changed = true
+			gocql.VerifHandleNodeEvents(sess, []gocql.VerifNodeEvent{{Change: "UP", Host: ip, Port: 9042}})
+			for w := 0; w < 500; w++ { // the refresh is debounced (1 s)
 				byID, _, _ := gocql.VerifRingSnapshot(sess)
 				if _, ok := byID[uuidString(n.HostID)]; ok {
 					break
